@@ -6698,6 +6698,7 @@ extern int fselect_r(double *wr, double *wi)
 
 static PyObject* gees(PyObject *self, PyObject *args, PyObject *kwrds)
 {
+    PyObject *py_select_prev;
     PyObject *F=NULL;
     matrix *A, *W=NULL, *Vs=NULL;
     int n=-1, ldA=0, ldVs=0, oA=0, oVs=0, oW=0, info, lwork, sdim, k,
@@ -6764,11 +6765,15 @@ static PyObject* gees(PyObject *self, PyObject *args, PyObject *kwrds)
                 free(work);  free(wr);  free(wi);  free(bwork);
                 return PyErr_NoMemory();
             }
+            py_select_prev = py_select_r;
             py_select_r = F;
             dgees_(Vs ? "V": "N", F ? "S" : "N", F ? &fselect_r : NULL,
                 &n, MAT_BUFD(A) + oA, &ldA, &sdim, wr, wi,
                 Vs ? MAT_BUFD(Vs) + oVs : NULL, &ldVs, (double *) work,
                 &lwork, bwork, &info);
+            /* a nested call made from inside select must not leave its own
+               callback behind */
+            py_select_r = py_select_prev;
             if (W) for (k=0; k<n; k++)
 #ifndef _MSC_VER
                 MAT_BUFZ(W)[oW + k] = wr[k] + I * wi[k];
@@ -6793,12 +6798,16 @@ static PyObject* gees(PyObject *self, PyObject *args, PyObject *kwrds)
                 free(work);  free(rwork); free(bwork);  free(w);
                 return PyErr_NoMemory();
             }
+            py_select_prev = py_select_c;
             py_select_c = F;
             zgees_(Vs ? "V": "N", F ? "S" : "N", F ? &fselect_c : NULL,
                 &n, MAT_BUFZ(A) + oA, &ldA, &sdim,
                 W ? MAT_BUFZ(W) + oW : w, Vs ? MAT_BUFZ(Vs) + oVs : NULL,
                 &ldVs, (complex_t *) work, &lwork, 
                 (complex_t *) rwork,  bwork, &info);
+            /* a nested call made from inside select must not leave its own
+               callback behind */
+            py_select_c = py_select_prev;
             free(work);  free(rwork); free(bwork);  free(w);
             break;
 
@@ -6922,6 +6931,7 @@ extern int fselect_gr(double *wr, double *wi, double *v)
 
 static PyObject* gges(PyObject *self, PyObject *args, PyObject *kwrds)
 {
+    PyObject *py_select_prev;
     PyObject *F=NULL;
     matrix *A, *B, *a=NULL, *b=NULL, *Vsl=NULL, *Vsr=NULL;
     int n=-1, ldA=0, ldB=0, ldVsl=0, ldVsr=0, oA=0, oB=0, oa=0, ob=0,
@@ -7029,6 +7039,7 @@ static PyObject* gges(PyObject *self, PyObject *args, PyObject *kwrds)
                 free(work);  free(ar);  free(ai);  free(bc);  free(bwork);
                 return PyErr_NoMemory();
             }
+            py_select_prev = py_select_gr;
             py_select_gr = F;
             dgges_(Vsl ? "V" : "N", Vsr ? "V" : "N", F ? "S" : "N",
                 F ? &fselect_gr : NULL, &n, MAT_BUFD(A) + oA, &ldA,
@@ -7037,6 +7048,9 @@ static PyObject* gges(PyObject *self, PyObject *args, PyObject *kwrds)
                 Vsl ? MAT_BUFD(Vsl) + oVsl : NULL, &ldVsl,
                 Vsr ? MAT_BUFD(Vsr) + oVsr : NULL, &ldVsr,
                 (double *) work, &lwork, bwork, &info);
+            /* a nested call made from inside select must not leave its own
+               callback behind */
+            py_select_gr = py_select_prev;
             if (a) for (k=0; k<n; k++)
 #ifndef _MSC_VER
                 MAT_BUFZ(a)[oa + k] = ar[k] + I * ai[k];
@@ -7062,6 +7076,7 @@ static PyObject* gges(PyObject *self, PyObject *args, PyObject *kwrds)
                 free(work);  free(rwork); free(bwork); free(ac); free(bc);
                 return PyErr_NoMemory();
             }
+            py_select_prev = py_select_gc;
             py_select_gc = F;
             zgges_(Vsl ? "V": "N", Vsr ? "V" : "N", F ? "S" : "N",
                 F ? &fselect_gc : NULL, &n, MAT_BUFZ(A) + oA, &ldA,
@@ -7070,6 +7085,9 @@ static PyObject* gges(PyObject *self, PyObject *args, PyObject *kwrds)
                 Vsl ? MAT_BUFZ(Vsl) + oVsl : NULL, &ldVsl,
                 Vsr ? MAT_BUFZ(Vsr) + oVsr : NULL, &ldVsr,
                 (complex_t *) work, &lwork, rwork,  bwork, &info);
+            /* a nested call made from inside select must not leave its own
+               callback behind */
+            py_select_gc = py_select_prev;
             if (b) for (k=0; k<n; k++)
                 MAT_BUFD(b)[ob + k] = 
                     (double) creal(((complex_t *) bc)[k]);
